@@ -154,7 +154,8 @@ func Forany[T any](pred func(T) bool, s []T) bool {
 }
 
 func PushLast[T any](elem T, s []T) []T {
-	return append(s, elem)
+	// never write into spare capacity of s: it may be shared with another slice value.
+	return append(s[:len(s):len(s)], elem)
 }
 
 func PushHead[T any](elem T, s []T) []T {
